@@ -7,7 +7,7 @@ import sys
 import traceback
 
 from . import ns, spec as S
-from .core import call_guarded
+from .core import call_guarded  # noqa: F401 (re-exported)
 from .universe import ev, _NS
 
 import utype
